@@ -141,7 +141,7 @@ def fcgi_special(rnd, r):
     if k == 0:
         return proto.fcgi_record(proto.FCGI_BEGIN, 1, struct.pack(">HB5x", 1, 0), version=rnd.choice([0, 2, 255])) + params + stdin, "wrong-version", True
     if k == 1:
-        return proto.fcgi_record(proto.FCGI_BEGIN, 1, struct.pack(">HB5x", rnd.choice([2, 3, 77]), 0)) + params + stdin, "unknown-role", True
+        return proto.fcgi_record(proto.FCGI_BEGIN, 1, struct.pack(">HB5x", rnd.choice([2, 3, 77]), 0), padding=rnd.choice([0, 3, 7, 255])) + params + stdin, "unknown-role", True
     if k == 2:
         return begin + proto.fcgi_record(rnd.choice([12, 50, 255]), 1, b"zzzz") + params + stdin, "unknown-record-type-inside-request", False
     if k == 3:
@@ -161,7 +161,8 @@ def fcgi_special(rnd, r):
         e2 = [(a, (b"-7" if a == b"CONTENT_LENGTH" else b)) for a, b in env]
         return begin + proto.fcgi_stream(proto.FCGI_PARAMS, 1, proto.fcgi_pairs(e2)) + stdin, "content-length-negative", True
     if k == 9:
-        return proto.fcgi_record(proto.FCGI_GET_VALUES, 0, proto.fcgi_pairs([(b"FCGI_MAX_CONNS", b""), (b"FCGI_MPXS_CONNS", b"")])) + begin + params + stdin, "get-values-then-request", False
+        asked = rnd.choice([[(b"FCGI_MAX_CONNS", b""), (b"FCGI_MPXS_CONNS", b"")], [(b"FCGI_MAX_REQS", b"")], [(b"FCGI_MAX_CONNS", b"")], [(b"FCGI_MPXS_CONNS", b"")], [(b"FCGI_MAX_CONNS", b""), (b"FCGI_MAX_REQS", b""), (b"FCGI_MPXS_CONNS", b"")]])
+        return proto.fcgi_record(proto.FCGI_GET_VALUES, 0, proto.fcgi_pairs(asked), padding=rnd.choice([0, 1, 5, 8])) + begin + params + stdin, "get-values-then-request", False
     if k == 10:
         return begin + begin + params + stdin, "begin-request-twice", False
     if k == 11:
